@@ -7,16 +7,16 @@ namespace NTV.PolyMod
 open NTV.PolyG NTV.Hensel
 
 /-- reduced, canonical and non-zero modulo p -/
-def Good (p : ℕ) (poly : List Int) : Prop := Reduced (p : Int) poly ∧ Canon poly ∧ red p poly ≠ 0
+def GoodL (p : ℕ) (poly : List Int) : Prop := Reduced (p : Int) poly ∧ Canon poly ∧ red p poly ≠ 0
 
-theorem Good.ne_nil {p : ℕ} {poly : List Int} (h : Good p poly) : poly ≠ [] :=
+theorem GoodL.ne_nil {p : ℕ} {poly : List Int} (h : GoodL p poly) : poly ≠ [] :=
   ne_nil_of_red_ne_zero p poly h.2.2
 
-theorem Good.natDegree {p : ℕ} {poly : List Int} (h : Good p poly) : (red p poly).natDegree = poly.length - 1 :=
+theorem GoodL.natDegree {p : ℕ} {poly : List Int} (h : GoodL p poly) : (red p poly).natDegree = poly.length - 1 :=
   (red_spec p poly h.ne_nil h.1 h.2.1).2
 
 theorem good_of (p : ℕ) (poly : List Int) (hr : Reduced (p : Int) poly) (hc : Canon poly) (hne : poly ≠ []) :
-    Good p poly := ⟨hr, hc, (red_spec p poly hne hr hc).1⟩
+    GoodL p poly := ⟨hr, hc, (red_spec p poly hne hr hc).1⟩
 
 /-- the list of values found by one stage: appended to `result`, all in [0, p), and accounting for the
 difference of the root multisets of `P` (before) and `P'` (after) -/
@@ -47,8 +47,8 @@ def deflate (p : Int) (poly : Poly) (result : List Int) (a : Int) : M (Poly × L
   else pure (poly, result)
 
 theorem deflate_spec (p : ℕ) [Fact p.Prime] (poly result : List Int) (a : Int) (ha0 : 0 ≤ a) (ha1 : a < p)
-    (hg : Good p poly) (poly1 result1 : List Int) (h : deflate p poly result a = .ok (poly1, result1)) :
-    Good p poly1 ∧ Stage p (red p poly) (red p poly1) result result1 ∧
+    (hg : GoodL p poly) (poly1 result1 : List Int) (h : deflate p poly result a = .ok (poly1, result1)) :
+    GoodL p poly1 ∧ Stage p (red p poly) (red p poly1) result result1 ∧
       ((poly1 = poly ∧ result1 = result ∧ (red p poly).eval (a : ZMod p) ≠ 0) ∨ poly1.length < poly.length) := by
   have hp : 0 < p := (Fact.out : p.Prime).pos
   unfold deflate at h
@@ -195,7 +195,7 @@ def splitAfter (p : Int) (rec : Poly → List Int → NTV.Draw.Stream → M (Lis
 
 /-- what the recursive calls are assumed / shown to do -/
 def RecSpec (p : ℕ) [Fact p.Prime] (rec : Poly → List Int → NTV.Draw.Stream → M (List Int × NTV.Draw.Stream)) : Prop :=
-  ∀ (poly result : List Int) (s : NTV.Draw.Stream) (res : List Int) (s' : NTV.Draw.Stream), Good p poly →
+  ∀ (poly result : List Int) (s : NTV.Draw.Stream) (res : List Int) (s' : NTV.Draw.Stream), GoodL p poly →
     rec poly result s = .ok (res, s') → Stage p (red p poly) 1 result res
 
 theorem degU_pos_iff (l : List Int) (h : l ≠ []) : degU l > 0 ↔ 2 ≤ l.length := by
@@ -207,15 +207,15 @@ theorem degU_pos_iff (l : List Int) (h : l ≠ []) : degU l > 0 ↔ 2 ≤ l.leng
 theorem splitAfter_spec (p : ℕ) [Fact p.Prime]
     (rec : Poly → List Int → NTV.Draw.Stream → M (List Int × NTV.Draw.Stream)) (hrec : RecSpec p rec)
     (x gcd poly result : List Int) (s : NTV.Draw.Stream) (hrx : Reduced (p : Int) x) (hcx : Canon x)
-    (hg : Good p poly) (hgcd : polyGcd x poly p = .ok gcd)
+    (hg : GoodL p poly) (hgcd : polyGcd x poly p = .ok gcd)
     (poly' result' : List Int) (s' : NTV.Draw.Stream)
     (h : splitAfter p rec gcd poly result s = .ok (poly', result', s')) :
-    Good p poly' ∧ Stage p (red p poly) (red p poly') result result' ∧
+    GoodL p poly' ∧ Stage p (red p poly) (red p poly') result result' ∧
       ((poly' = poly ∧ result' = result ∧ ∀ d : (ZMod p)[X], d ∣ red p x → d ∣ red p poly → d.natDegree = 0) ∨
         poly'.length < poly.length) := by
   have hpp : p.Prime := Fact.out
   obtain ⟨g1, g2, g3, g4, g5, g6⟩ := polyGcd_red p hpp x poly gcd hrx hg.1 hcx hg.2.1 hg.ne_nil hgcd
-  have hgg : Good p gcd := good_of p gcd g2 g3 g1
+  have hgg : GoodL p gcd := good_of p gcd g2 g3 g1
   unfold splitAfter at h
   split at h
   · rename_i hdeg
